@@ -32,6 +32,29 @@ type input struct {
 	skel  string
 	fail  string        // "" for a succeeding input, else the failure kind
 	maxMs time.Duration // >0: evaluation deadline for this input
+	depth int           // >0: State.MaxDepth for this input (default maxDepthC10)
+}
+
+// Pure, memoizable functions (parameters and locals only, names used nowhere else): a call that fails
+// for a reason OUTSIDE its arguments (deadline, depth limit) must not be remembered by the function cache.
+var memoPrelude = []input{
+	{src: `func slow(n){slw_t=0; for slw_i=0:n{slw_t=slw_t+slw_i%7}; slw_t}; func slow2(n){slow(n)+1}`, skel: "(S)"},
+	{src: `func rdeep(n){if n<=0 {return 0}; 1+rdeep(n-1)}`, skel: "(S)"},
+	{src: `func perr(n){prr_a=0; for prr_k=0:n{prr_a=prr_a+prr_k}; if prr_a>2 {error("pure boom")}; prr_a}`, skel: "(S)"},
+}
+
+const slowN = 100000 // a full run of slow(slowN) takes some tens of milliseconds; the failing call gets 2 ms
+
+// (failing call, the very same call re-submitted later with generous limits); %d = argument
+var memoPairs = []struct{ fail, again input }{
+	{input{src: `slow(%d)`, skel: "(S (C 1 (S (L 11 (S e)))))", fail: "deadline-in-pure-function", maxMs: 2 * time.Millisecond},
+		input{src: `println(slow(%d))`, skel: "(S (C 1 (S (L 11))))"}},
+	{input{src: `slow2(%d)`, skel: "(S (C 1 (S (C 1 (S (L 11 (S e)))))))", fail: "deadline-in-nested-pure-function", maxMs: 2 * time.Millisecond},
+		input{src: `println(slow2(%d), slow(%d))`, skel: "(S (C 1 (S (C 1 (S (L 11))))))"}},
+	{input{src: `rdeep(400)`, skel: "(S (C 1 d))", fail: "depth-overflow-in-pure-recursion"},
+		input{src: `println(rdeep(400))`, skel: "(S (C 1 (S r)))", depth: 100000}},
+	{input{src: `perr(5)`, skel: "(S (C 1 (S (L 11) e)))", fail: "error-in-pure-function"},
+		input{src: `println(catch(perr(5)))`, skel: "(S)"}}, // catch() turns the error into a value: control-neutral,
 }
 
 var preludeC10 = []input{
@@ -123,6 +146,10 @@ func runHistory(c *Ctx, noReg bool, h []input) []SessObs {
 	x := NewSess(noReg, maxDepthC10)
 	var obs []SessObs
 	for _, in := range h {
+		x.S.MaxDepth = maxDepthC10
+		if in.depth > 0 {
+			x.S.MaxDepth = in.depth
+		}
 		obs = append(obs, x.Run(in.src, in.maxMs))
 		c.Eval()
 	}
@@ -136,7 +163,7 @@ func encodeHist(noReg bool, h []input) string {
 		if in.fail != "" {
 			tag = "f"
 		}
-		parts = append(parts, fmt.Sprintf("%s%d:%s", tag, in.maxMs/time.Millisecond, Hx([]byte(in.src))))
+		parts = append(parts, fmt.Sprintf("%s%d/%d:%s", tag, in.maxMs/time.Millisecond, in.depth, Hx([]byte(in.src))))
 	}
 	return "H " + b01(noReg) + " " + strings.Join(parts, ",")
 }
@@ -149,8 +176,10 @@ func decodeHist(cs string) (bool, []input) {
 	var h []input
 	for _, p := range strings.Split(f[2], ",") {
 		a, b, _ := strings.Cut(p, ":")
-		ms, _ := strconv.Atoi(a[1:])
-		in := input{src: string(Unhx(b)), maxMs: time.Duration(ms) * time.Millisecond}
+		msS, dS, _ := strings.Cut(a[1:], "/")
+		ms, _ := strconv.Atoi(msS)
+		dp, _ := strconv.Atoi(dS)
+		in := input{src: string(Unhx(b)), maxMs: time.Duration(ms) * time.Millisecond, depth: dp}
 		if a[0] == 'f' {
 			in.fail = "replayed"
 		}
@@ -186,9 +215,13 @@ func checkHistory(c *Ctx, noReg bool, h []input, baseObs []SessObs, withModel bo
 	bi := 0
 	lastFail := ""
 	reported := false
+	failErrs := map[string]string{} // error text of a failing input -> its kind
 	for i, in := range h {
 		if in.fail != "" {
 			lastFail = in.fail
+			for _, e := range obs[i].Errs {
+				failErrs[e] = in.fail
+			}
 			if obs[i].Class() == "v" {
 				c.Fail("failing-input-did-not-fail:"+in.fail, encodeHist(noReg, h), fmt.Sprintf("input %d %q evaluated without error", i, in.src))
 			} else if obs[i].Out != "" && !strings.HasPrefix(in.fail, "error") && in.fail != "parse-error" {
@@ -201,6 +234,13 @@ func checkHistory(c *Ctx, noReg bool, h []input, baseObs []SessObs, withModel bo
 			kind := lastFail
 			if kind == "" {
 				kind = "nothing"
+			}
+			// the succeeding input now reports (or prints) the very error an earlier failing input ended with
+			for e, k := range failErrs {
+				msg := strings.TrimSuffix(strings.TrimPrefix(e, "<err: "), ">")
+				if len(baseObs[bi].Errs) == 0 && (strings.Contains(strings.Join(obs[i].Errs, " "), msg) || strings.Contains(obs[i].Out, msg)) {
+					kind, d = k, "cached-error-replayed"
+				}
 			}
 			c.Fail("trace-after-"+kind+":"+d, encodeHist(noReg, h),
 				fmt.Sprintf("input %d %q: without the failing inputs out=%q errs=%q panicked=%v ; with them out=%q errs=%q panicked=%v",
@@ -264,6 +304,44 @@ func runC10(c *Ctx) {
 			}
 			checkHistory(c, mode == 1, h, runHistory(c, mode == 1, base), true)
 			c.Count("corpus")
+		}
+	}
+	// a failing call inside a pure (memoizable) function, then the very same call with generous limits
+	nMemo := 10
+	if c.Thorough() {
+		nMemo = 120
+	}
+	for i := 0; i < nMemo; i++ {
+		for pi, mp := range memoPairs {
+			arg := slowN + c.R.Intn(1000)
+			fill := func(in input) input {
+				if n := strings.Count(in.src, "%d"); n == 1 {
+					in.src = fmt.Sprintf(in.src, arg)
+				} else if n == 2 {
+					in.src = fmt.Sprintf(in.src, arg, arg)
+				}
+				return in
+			}
+			f, again := fill(mp.fail), fill(mp.again)
+			g := &hgen{r: c.R}
+			base := append(append([]input{}, preludeC10...), memoPrelude...)
+			h := append([]input{}, base...)
+			for j := c.R.Intn(3); j > 0; j-- {
+				in := g.next()
+				base, h = append(base, in), append(h, in)
+			}
+			for m := 1 + c.R.Intn(2); m > 0; m-- {
+				h = append(h, f)
+			}
+			for j := c.R.Intn(3); j > 0; j-- {
+				in := g.next()
+				base, h = append(base, in), append(h, in)
+			}
+			tail := []input{again, again, {src: `cnt = cnt + 1; println(cnt)`, skel: "(S)"}}
+			base, h = append(base, tail...), append(h, tail...)
+			noReg := (i+pi)%4 == 3
+			checkHistory(c, noReg, h, runHistory(c, noReg, base), true)
+			c.Count("memo-resubmission=" + mp.fail.fail)
 		}
 	}
 	// every failing kind at every position with multiplicity 1..3
